@@ -142,3 +142,32 @@ Proof.
   rewrite (indexed_from_filter_seg l 0 lo hi st Hst Hlo).
   replace (lo - 0) with lo by lia. reflexivity.
 Qed.
+
+(* ---- the integer-index form source[i] ------------------------------------ *)
+(* Observable.__getitem__ (observable/observable.py): an integer key i becomes slice_(i, i + 1, 1) *)
+Corollary getitem_int_correct {A} (l : list A) (i : Z) :
+  zlen l <= maxsize ->
+  exists plan, slice_plan (Some i) (Some (i + 1)) (Some 1) = Some plan
+            /\ forallb pop_ok plan = true
+            /\ run_plan plan l = py_slice l (Some i) (Some (i + 1)) (Some 1).
+Proof. intros H. apply slice_plan_correct; [exact H|]. cbn. lia. Qed.
+
+(* for a non-negative index that is the i-th element, if the source has one *)
+Lemma getitem_int_nonneg {A} (l : list A) (i : Z) : 0 <= i ->
+  py_slice l (Some i) (Some (i + 1)) (Some 1) = firstn 1 (skipn (Z.to_nat i) l).
+Proof.
+  intros Hi. unfold py_slice. rewrite every_nth_1, !clamp_pos by lia. unfold zlen.
+  destruct (Z.lt_ge_cases i (Z.of_nat (length l))) as [Hlt|Hge].
+  - replace (Z.min (i + 1) (Z.of_nat (length l)) - Z.min i (Z.of_nat (length l))) with 1 by lia.
+    replace (Z.min i (Z.of_nat (length l))) with i by lia. reflexivity.
+  - replace (Z.min (i + 1) (Z.of_nat (length l)) - Z.min i (Z.of_nat (length l))) with 0 by lia.
+    rewrite (skipn_all2 l (n:=Z.to_nat i)) by lia. cbn [Z.to_nat firstn]. reflexivity.
+Qed.
+
+(* the last element cannot be had this way: source[-1] is source[-1:0], which is empty *)
+Lemma getitem_int_minus_one {A} (l : list A) : py_slice l (Some (-1)) (Some 0) (Some 1) = [].
+Proof.
+  unfold py_slice. rewrite every_nth_1, (clamp_neg _ (-1)), (clamp_pos _ 0) by lia. unfold zlen.
+  replace (Z.to_nat (Z.min 0 (Z.of_nat (length l)) - Z.max 0 (Z.of_nat (length l) + -1))) with 0%nat by lia.
+  reflexivity.
+Qed.
